@@ -696,7 +696,18 @@ fn pseudo_block(order: &[&str], r: Option<&mut Rng>) -> Vec<u8> {
             enc.size_update(&mut out, *r.pick(&[0usize, 64, 4096, 4096]));
         }
     }
-    for name in order {
+    // a client may (against RFC 7540 8.1.2.1, but decodable) put a regular field in front of
+    // some pseudo-headers; PS still lists every pseudo-header of the block, in order
+    let mut early: Option<usize> = None;
+    if let Some(r) = rng.as_deref_mut() {
+        if !order.is_empty() && r.chance(1, 5) {
+            early = Some(r.usize(order.len()));
+        }
+    }
+    for (pos, name) in order.iter().enumerate() {
+        if early == Some(pos) {
+            enc.field(&mut out, b"x-early", b"1", Repr::lit(Indexing::Without, false, false));
+        }
         let value = match *name {
             ":method" => "GET",
             ":path" => "/",
@@ -1191,7 +1202,21 @@ fn oversized_frames(ctx: &mut Ctx) {
         let big_len = 16385 + r.usize(3700);
         let big = g::frame(*r.pick(&[0x0bu8, 0x10, 0x00, 0xfe]), 0, if r.chance(1, 2) { 0 } else { 1 }, &vec![0x5a; big_len]);
         let pos = r.usize(parts.len() + 1);
-        parts.insert(pos, big);
+        // every fourth stream carries, instead, a run of legal full-size DATA frames that makes
+        // the prefix up to the first SETTINGS frame (or the frames after it that arrive in the
+        // same chunk) longer than 64 KiB
+        let long_prefix = r.chance(1, 4);
+        if long_prefix {
+            let k = 3 + r.usize(4);
+            let mut run = Vec::new();
+            for i in 0..k {
+                let len = if i + 1 == k { 16384 - r.usize(40) } else { 16384 };
+                run.extend_from_slice(&g::frame(0x00, 0, 1 + 2 * r.below(3) as u32, &vec![0x44; len]));
+            }
+            parts.insert(pos, run);
+        } else {
+            parts.insert(pos, big);
+        }
         let mut bytes = if r.chance(1, 2) { g::PREFACE.to_vec() } else { Vec::new() };
         for p in &parts {
             bytes.extend_from_slice(p);
@@ -1202,6 +1227,11 @@ fn oversized_frames(ctx: &mut Ctx) {
         for p in &parts {
             o += p.len();
             bounds.push(o);
+        }
+        if long_prefix {
+            let info = describe(&bytes);
+            let cuts: Vec<usize> = if r.chance(1, 2) { vec![] } else { bounds.iter().copied().filter(|b| *b < bytes.len()).collect() };
+            incremental(ctx, &bytes, &info, &cuts, "long-prefix");
         }
         for variant in 0..4 {
             let mut ends: Vec<usize> = match variant {
@@ -1230,11 +1260,11 @@ fn oversized_frames(ctx: &mut Ctx) {
             });
             match run {
                 Ok((got, want)) => {
-                    ctx.judge(got == want, &[], "incremental extractor differs from the one-shot extraction of the bytes received so far (stream with an oversized frame)", || {
+                    ctx.judge(got == want, &[], "incremental extractor differs from the one-shot extraction of the bytes received so far (stream with an oversized frame or a prefix longer than 64 KiB)", || {
                         json!({"frames": parts.iter().map(|p| json!({"type": p[3], "payload_octets": p.len() - 9})).collect::<Vec<_>>(), "oversized_frame_position": pos, "chunk_ends": ends,
                                "incremental": got, "one_shot_on_prefixes": want, "bytes_hex_head": hex(&bytes[..bytes.len().min(96)])})
                     });
-                    ctx.bucket(&format!("oversized/pos{}of{}/chunking{variant}/{}", pos, parts.len(), if want.iter().any(|w| w.is_some()) { "fingerprint" } else { "none" }));
+                    ctx.bucket(&format!("{}/pos{}of{}/chunking{variant}/{}", if long_prefix { "long-prefix" } else { "oversized" }, pos, parts.len(), if want.iter().any(|w| w.is_some()) { "fingerprint" } else { "none" }));
                 }
                 Err(p) => {
                     ctx.judge(false, &[], "panic in the Akamai extractors on a stream with an oversized frame", || json!({"panic": p, "chunk_ends": ends}));
@@ -1272,6 +1302,7 @@ pub fn spec() -> PropSpec {
         shards: super::shards_16,
         rule: "frame sequences (SETTINGS with known/unknown/duplicate ids and boundary values, WINDOW_UPDATE absent/zero/reserved bit/on a stream/before SETTINGS, PRIORITY with every weight 0..255 and exclusive bit, HEADERS with all 24 pseudo-header orders x PADDED/PRIORITY/CONTINUATION framings, frames before SETTINGS, with/without preface) are fingerprinted by both one-shot entry points and compared with an independent S|WU|P|PS reference and SHA-256; each stream is then fed to Http2FingerprintExtractor in every 2-chunk partition, byte by byte, frame by frame, all pairs of frame-grid cut points and random k-cuts, and the whole history of return values is compared with the one-shot rule. A bucket is a distinct (entry point or chunking class, cut position class, preface, SETTINGS/WU/PRIORITY/HEADERS class, outcome) tuple",
         assumptions: &[
+            "streams with more than 64 KiB before or around the first SETTINGS frame are judged against the reference and against the one-shot extraction of each received prefix",
             "a fingerprint exists iff a SETTINGS frame on stream 0 is among the complete frames; streams whose first such frame has no parameters, a SETTINGS length not divisible by 6, WINDOW_UPDATE length != 4, PRIORITY length != 5, an interrupted or undecodable first header block, or pseudo-headers other than :method/:path/:authority/:scheme/:status are run crash-only; frames are <= 16384 octets",
             "WU is the first WINDOW_UPDATE on stream 0 with the reserved bit cleared, 00 if absent or zero; P lists every PRIORITY frame (any stream) as stream:exclusive:dependency:weight+1; PS is empty when no HEADERS frame on a non-zero stream is complete in the bytes; when the first HEADERS frame is present but its CONTINUATION frames are not, the PS part is not judged",
             "incremental rule: add_bytes returns Ok(Some) exactly once, on the chunk that completes the first SETTINGS frame on stream 0, equal to the one-shot fingerprint of the bytes received so far (trailing incomplete frame ignored); Ok(None) otherwise; get_fingerprint()/fingerprint_extracted() agree with what was returned",
